@@ -417,7 +417,7 @@ def negate_atom(a):
 def factored_tree(draw, classes):
     """(P and X) or (P and Y) / (P or X) and (P or Y) with X, Y on one variable (often exact complements),
     or a wide DNF / CNF over distinct variables - the inputs of union_simplify / intersect_simplify / cnf / dnf."""
-    kind = draw(st.sampled_from(["shared-or", "shared-and", "shared-or", "shared-and", "shared-or", "shared-and", "wide-dnf", "wide-cnf"]))
+    kind = draw(st.sampled_from(["shared-or", "shared-and"] * 5 + ["wide-dnf", "wide-cnf"]))
     if kind.startswith("wide"):
         inner, outer = ("and", "or") if kind == "wide-dnf" else ("or", "and")
         groups = []
